@@ -104,6 +104,39 @@ func main() {
 			}
 		}
 	}
+	// CanAdd answers what Add returns and changes nothing (C03), also with a global AnyEnter veto
+	for _, anyVeto := range []bool{false, true} {
+		for mask := 0; mask < 8; mask++ {
+			total++
+			schema := am.Schema{"T": {}, "X1": {}, "X2": {}, "X3": {}}
+			ctx, cancel := context.WithCancel(context.Background())
+			m := am.New(ctx, schema, &am.Opts{Id: "verif-c03"})
+			neg := map[string]am.HandlerNegotiation{"AnyEnter": func(e *am.Event) bool { return !anyVeto }}
+			for i, x := range xs {
+				veto := mask&(1<<i) != 0
+				neg[x+"Enter"] = func(e *am.Event) bool { return !veto }
+			}
+			if _, err := m.HandlersBindMaps(neg, nil); err != nil {
+				panic(err)
+			}
+			m.Add1("T", nil)
+			before := fmt.Sprint(m.Time(nil), m.QueueTick())
+			can := m.CanAdd(xs, nil)
+			after := fmt.Sprint(m.Time(nil), m.QueueTick())
+			res := m.Add(xs, nil)
+			cancel()
+			bad := ""
+			if before != after {
+				bad = "CanAdd changed the machine: " + before + " -> " + after
+			}
+			if can != res {
+				bad += fmt.Sprintf(" CanAdd answered %v, Add returned %v", can, res)
+			}
+			if bad != "" {
+				failing = append(failing, fmt.Sprintf("CanAdd vs Add: AnyEnter veto=%v Enter vetoes=%03b => %s", anyVeto, mask, strings.TrimSpace(bad)))
+			}
+		}
+	}
 	json.NewEncoder(os.Stdout).Encode(map[string]any{"failing": failing, "total": total})
 }
 `
